@@ -13,9 +13,10 @@ use proptest::sample::select;
 use rv::engine::runner::catch;
 use rv::engine::{pick, CaseReport, Check, GroupOpts};
 use rv::tree::{diff, Node};
+use rv::engine::scratch::Scratch;
 use rv::ws_common::{
     abs_inside, canaries_in, cwd, events_json, has_dotdot, is_abs, normalize_rel, CwdClass,
-    Rig, Sandbox, Seen, SENTINELS,
+    Rig, Sandbox, Seen, SessionRig, SENTINELS,
 };
 use serde::{Deserialize, Serialize};
 use serde_json::{json, Value};
@@ -161,8 +162,10 @@ const CWD_BAIT: &[&str] = &[
 ];
 
 const REWIND_IDS: &[&str] = &[
-    "<CID>", "<CID>/", "./<CID>", "<CID>/.", "../s1/<CID>", "<CID>/../<CID>", "<ROOT>/.rip/checkpoints/s1/<CID>",
+    "<CID>", "<CID>", "<CID>", "<CID>/", "./<CID>", "<CID>/.", "../s1/<CID>", "<CID>/../<CID>", "<ROOT>/.rip/checkpoints/s1/<CID>",
     "../../../../cpstore", "../../../../cpstore/", "<OUTER>/cpstore", "../../../../../outer/cpstore",
+    "../../../../cpstore/.", "./../../../../cpstore", "../../../../../outer/./cpstore", "<OUTER>/cpstore/",
+    "../../../..//cpstore", "<CID>/../../../../../cpstore",
     "", ".", "..", "no-such", "<CID>x", " <CID>", "<CID> ", "<CID>\n", "<CID>\u{0}", "cpstore", "s1",
     "../s1", "files", "<CID>/files", "../../checkpoints/s1/<CID>",
 ];
@@ -197,7 +200,7 @@ fn path_strategy() -> BoxedStrategy<(String, String)> {
         6 => select(INSIDE).prop_map(|s| (s.to_string(), "inside".to_string())),
         3 => select(CWD_BAIT).prop_map(|s| (s.to_string(), "cwd_bait".to_string())),
         // very long (around PATH_MAX)
-        2 => (0u8..5, 0usize..=8).prop_map(|(kind, d)| {
+        3 => (0u8..5, 0usize..=8).prop_map(|(kind, d)| {
             let p = match kind {
                 0 => format!("{}a.txt", "./".repeat(2036 + d)),
                 1 => format!("{}a.txt", format!("{}/", long_name(255)).repeat(15)),
@@ -207,7 +210,7 @@ fn path_strategy() -> BoxedStrategy<(String, String)> {
             };
             (p, "long".to_string())
         }),
-        2 => rv::gen::text::text(14).prop_map(|s| (s, "unicode_raw".to_string())),
+        3 => rv::gen::text::text(14).prop_map(|s| (s, "unicode_raw".to_string())),
     ]
     .boxed()
 }
@@ -269,7 +272,8 @@ struct PathFacts {
 fn facts(case: &Case, sb: &Sandbox, p: &str, cid: &str) -> PathFacts {
     let cwd_ne_root = CwdClass::parse(&case.cwd) != CwdClass::Root;
     let rel_kind = |q: &str| -> &'static str {
-        if normalize_rel(q).as_deref() == Some("") {
+        let to_root = normalize_rel(q).as_deref() == Some("");
+        if to_root && (case.pos == "write.path" || !cwd_ne_root) {
             "resolves_to_root"
         } else if cwd_ne_root {
             "relative_cwd_ne_root"
@@ -335,10 +339,80 @@ fn where_of(rel: &str) -> &'static str {
     }
 }
 
+/// Run the case. A violation seen while a file tool ran through the hooked runner is attributed
+/// by a differential: the same case is run again on a fresh sandbox through the hook-less runner;
+/// what disappears came from the automatic checkpoint (`create_checkpoint` given the tool's raw
+/// argument) and is reported as `cpcreate|via=<position>|…`, what stays belongs to the tool.
 fn run(case: &Case) -> CaseReport {
+    let (mut rep, hooked) = run_inner(case, false, false);
+    if hooked {
+        reattribute(case, &mut rep);
+    }
+    rep
+}
+
+struct SessionEnv {
+    sb: Sandbox,
+    _data: Scratch,
+    rig: Option<SessionRig>,
+}
+
+impl SessionEnv {
+    fn new() -> SessionEnv {
+        let sb = Sandbox::new("c13s", &ws_tree());
+        let data = Scratch::new("c13s-data");
+        let rig = SessionRig::new(&sb.root, data.path()).ok();
+        SessionEnv { sb, _data: data, rig }
+    }
+}
+
+thread_local! {
+    static SESSION_ENV: std::cell::RefCell<Option<std::rc::Rc<SessionEnv>>> = const { std::cell::RefCell::new(None) };
+}
+
+/// The same case as a session input envelope through `ripd::SessionEngine` (real hook). A case in
+/// a known-finding region is skipped here (there is no hook-less engine to step around it).
+fn run_session(case: &Case) -> CaseReport {
+    let (mut rep, _) = run_inner(case, false, true);
+    reattribute(case, &mut rep);
+    rep
+}
+
+fn reattribute(case: &Case, rep: &mut CaseReport) {
+    let tool_pos = case.pos != "cp.create.files" && case.pos != "cp.rewind.id";
+    if rep.fails.is_empty() || !tool_pos {
+        return;
+    }
+    let (bare, _) = run_inner(case, true, false);
+    for f in rep.fails.iter_mut() {
+        if !bare.fails.iter().any(|b| b.sig == f.sig) {
+            let rest = f.sig.splitn(2, '|').nth(1).unwrap_or("").to_string();
+            f.sig = format!("cpcreate|via={}|{rest}", case.pos);
+        }
+    }
+}
+
+fn run_inner(case: &Case, force_bare: bool, session: bool) -> (CaseReport, bool) {
     let mut rep = CaseReport::new();
     let cwd_class = CwdClass::parse(&case.cwd);
-    let sb = Sandbox::new("c13", &ws_tree());
+    // session mode keeps one sandbox location + engine per shard thread (building an engine costs
+    // ~40 ms of TLS root-store loading in reqwest) and rebuilds the tree for every case
+    let owned;
+    let senv: Option<std::rc::Rc<SessionEnv>>;
+    let sb: &Sandbox = if session {
+        senv = Some(SESSION_ENV.with(|c| {
+            c.borrow_mut()
+                .get_or_insert_with(|| std::rc::Rc::new(SessionEnv::new()))
+                .clone()
+        }));
+        let e = senv.as_ref().unwrap();
+        e.sb.repopulate(&ws_tree());
+        &e.sb
+    } else {
+        owned = Sandbox::new("c13", &ws_tree());
+        senv = None;
+        &owned
+    };
     let mut rig = Rig::new(&sb.root);
     let ex_f2 = excluded(EXCLUDE_KNOWN_F2, "F2") && !case.allow_known;
     let ex_f3_escape = excluded(EXCLUDE_KNOWN_F3_ESCAPE, "F3_ESCAPE") && !case.allow_known;
@@ -347,7 +421,7 @@ fn run(case: &Case) -> CaseReport {
 
     // one real checkpoint (absolute path: independent of cwd) for the rewind-id position
     let mut cid = String::from("<no-checkpoint>");
-    if case.pos == "cp.rewind.id" {
+    if case.pos == "cp.rewind.id" && !session {
         let ev = rig.create_checkpoint("setup", vec![sb.root.join("a.txt")]);
         if let Some((_, id, _, _)) = Seen::of(&ev).created.first() {
             cid = id.clone();
@@ -373,14 +447,14 @@ fn run(case: &Case) -> CaseReport {
     let region_escape = matches!(f.must_refuse, Some("abs_outside") | Some("dotdot"));
     let region_cwd = !is_abs(&p) && cwd_class != CwdClass::Root;
     let region_f20 = f.must_refuse == Some("abs_inside");
-    let mut hooked = true;
+    let mut hooked = !force_bare;
     match case.pos.as_str() {
         "write.path" => {
             let atomic_plain = !bit(0) && !bit(1);
             if ex_f2 && normalize_rel(&p).as_deref() == Some("") && atomic_plain {
                 rep.count("excluded_known_F2_write_resolves_to_root", 1);
                 rep.class("excluded:F2");
-                return rep;
+                return (rep, false);
             }
             if ex_f3_escape && region_escape {
                 hooked = false;
@@ -405,17 +479,28 @@ fn run(case: &Case) -> CaseReport {
             if ex_f3_escape && region_escape {
                 rep.count("excluded_known_F3_escape_manual_create_skipped", 1);
                 rep.class("excluded:F3_escape");
-                return rep;
+                return (rep, false);
             }
             if ex_f3_cwd && region_cwd {
                 rep.count("excluded_known_F3_cwd_manual_create_skipped", 1);
                 rep.class("excluded:F3_cwd");
-                return rep;
+                return (rep, false);
             }
         }
         _ => {}
     }
-    rep.class(if hooked { "runner:hooked" } else { "runner:bare" });
+    if session && !hooked {
+        rep.class("excluded:session_in_known_region");
+        return (rep, false);
+    }
+    rep.class(if session { "runner:session" } else if hooked { "runner:hooked" } else { "runner:bare" });
+    let srig = senv.as_ref().and_then(|e| e.rig.as_ref());
+    if session && srig.is_none() {
+        rep.class("session_unavailable");
+        rep.count("session_unavailable", 1);
+        return (rep, false);
+    }
+    let timed_out = std::cell::Cell::new(false);
 
     // ---- run the operation
     let _cwd = cwd::enter(sb.cwd_dir(cwd_class));
@@ -424,76 +509,111 @@ fn run(case: &Case) -> CaseReport {
     let pos = case.pos.as_str();
     let content = case.content.clone();
     let root = sb.root.clone();
-    let result = catch(|| -> Vec<rip_kernel::Event> {
-        match pos {
-            "read.path" => rig.tool(hooked, "read", json!({"path": p})),
-            "write.path" => {
-                let mut args = json!({"path": p, "content": content});
-                if bit(0) {
-                    args["append"] = json!(true);
-                }
-                if bit(1) {
-                    args["atomic"] = json!(false);
-                }
-                if bit(7) && bit(6) {
-                    args["create"] = json!(false);
-                }
-                rig.tool(hooked, "write", args)
+    // build the request once; it is then sent either through ToolRunner (+ hook) directly or
+    // as a session input envelope through ripd's SessionEngine (the real WorkspaceCheckpointHook)
+    enum Op {
+        Tool(&'static str, Value),
+        Create(Vec<String>),
+        Rewind(String),
+    }
+    let root_s = root.to_string_lossy().into_owned();
+    let op = match pos {
+        "read.path" => Op::Tool("read", json!({"path": p})),
+        "write.path" => {
+            let mut args = json!({"path": p, "content": content});
+            if bit(0) {
+                args["append"] = json!(true);
             }
-            "ls.path" => rig.tool(
-                hooked,
-                "ls",
-                json!({"path": p, "recursive": bit(2), "include_hidden": bit(3)}),
-            ),
-            "grep.path" => rig.tool(
-                hooked,
-                "grep",
-                json!({"pattern": "CANARY|alpha", "path": p, "include_hidden": bit(2)}),
-            ),
-            "patch.add" | "patch.delete" | "patch.update" | "patch.move_to" => {
-                let mut t = String::from("*** Begin Patch\n");
-                if bit(3) {
-                    t.push_str("*** Add File: rv_ok_before.txt\n+ok\n");
-                }
-                match pos {
-                    "patch.add" => t.push_str(&format!("*** Add File: {p}\n+{content}\n")),
-                    "patch.delete" => t.push_str(&format!("*** Delete File: {p}\n")),
-                    "patch.update" => {
-                        t.push_str(&format!("*** Update File: {p}\n"));
-                        if bit(4) {
-                            t.push_str("*** Move to: rv_moved.txt\n");
-                        }
-                        t.push_str("@@\n-alpha\n+ALPHA\n");
+            if bit(1) {
+                args["atomic"] = json!(false);
+            }
+            if bit(7) && bit(6) {
+                args["create"] = json!(false);
+            }
+            Op::Tool("write", args)
+        }
+        "ls.path" => Op::Tool(
+            "ls",
+            json!({"path": p, "recursive": bit(2), "include_hidden": bit(3)}),
+        ),
+        "grep.path" => Op::Tool(
+            "grep",
+            json!({"pattern": "CANARY|alpha", "path": p, "include_hidden": bit(2)}),
+        ),
+        "patch.add" | "patch.delete" | "patch.update" | "patch.move_to" => {
+            let mut t = String::from("*** Begin Patch\n");
+            if bit(3) {
+                t.push_str("*** Add File: rv_ok_before.txt\n+ok\n");
+            }
+            match pos {
+                "patch.add" => t.push_str(&format!("*** Add File: {p}\n+{content}\n")),
+                "patch.delete" => t.push_str(&format!("*** Delete File: {p}\n")),
+                "patch.update" => {
+                    t.push_str(&format!("*** Update File: {p}\n"));
+                    if bit(4) {
+                        t.push_str("*** Move to: rv_moved.txt\n");
                     }
-                    _ => t.push_str(&format!(
-                        "*** Update File: a.txt\n*** Move to: {p}\n@@\n-alpha\n+ALPHA\n"
-                    )),
+                    t.push_str("@@\n-alpha\n+ALPHA\n");
                 }
-                if bit(5) {
-                    t.push_str("*** Add File: rv_ok_after.txt\n+ok\n");
-                }
-                t.push_str("*** End Patch");
-                rig.tool(hooked, "apply_patch", json!({"patch": t}))
+                _ => t.push_str(&format!(
+                    "*** Update File: a.txt\n*** Move to: {p}\n@@\n-alpha\n+ALPHA\n"
+                )),
             }
-            "cp.create.files" => {
-                let mut files = Vec::new();
-                if bit(5) {
-                    files.push(root.join("b.txt"));
-                }
-                files.push(PathBuf::from(&p));
-                if bit(6) && bit(5) {
-                    files.push(root.join("sub/c.txt"));
-                }
-                rig.create_checkpoint("manual", files)
+            if bit(5) {
+                t.push_str("*** Add File: rv_ok_after.txt\n+ok\n");
             }
-            "cp.rewind.id" => rig.rewind(&p),
-            _ => rig.tool(
-                hooked,
-                if bit(6) { "shell" } else { "bash" },
-                json!({"command": BASH_CMD, "cwd": p}),
-            ),
+            t.push_str("*** End Patch");
+            Op::Tool("apply_patch", json!({"patch": t}))
+        }
+        "cp.create.files" => {
+            let mut files = Vec::new();
+            if bit(5) {
+                files.push(format!("{root_s}/b.txt"));
+            }
+            files.push(p.clone());
+            if bit(6) && bit(5) {
+                files.push(format!("{root_s}/sub/c.txt"));
+            }
+            Op::Create(files)
+        }
+        "cp.rewind.id" => Op::Rewind(p.clone()),
+        _ => Op::Tool(
+            if bit(6) { "shell" } else { "bash" },
+            json!({"command": BASH_CMD, "cwd": p}),
+        ),
+    };
+    let result = catch(|| -> Vec<rip_kernel::Event> {
+        if session {
+            let input = match &op {
+                Op::Tool(name, args) => json!({"tool": name, "args": args}),
+                Op::Create(files) => {
+                    json!({"checkpoint": {"action": "create", "label": "manual", "files": files}})
+                }
+                Op::Rewind(id) => json!({"checkpoint": {"action": "rewind", "id": id}}),
+            };
+            match srig.expect("session rig").input(input.to_string()) {
+                Ok(ev) => ev,
+                Err(_) => {
+                    timed_out.set(true);
+                    Vec::new()
+                }
+            }
+        } else {
+            match &op {
+                Op::Tool(name, args) => rig.tool(hooked, name, args.clone()),
+                Op::Create(files) => {
+                    rig.create_checkpoint("manual", files.iter().map(PathBuf::from).collect())
+                }
+                Op::Rewind(id) => rig.rewind(id),
+            }
         }
     });
+    if timed_out.get() {
+        // the session did not end within the (generous) wait: no verdict for this case
+        rep.class("session_wait_expired");
+        rep.count("session_wait_expired", 1);
+        return (rep, hooked);
+    }
     let events = match result {
         Ok(ev) => ev,
         Err(panic) => {
@@ -522,20 +642,12 @@ fn run(case: &Case) -> CaseReport {
                "create_failed": seen.create_failed, "rewind_failed": seen.rewind_failed,
                "more": extra})
     };
-    // violations located in the checkpoint store during a tool call belong to the automatic
-    // checkpoint (create_checkpoint given the tool's raw argument)
-    let op_for = |where_: &str| -> String {
-        if pos == "cp.create.files" || (where_ == "checkpoint_store" && pos != "cp.rewind.id") {
-            "cpcreate".to_string()
+    // signature head: the position, or `cpcreate|via=<position>` for checkpoint creation
+    let op_for = |_where: &str| -> String {
+        if pos == "cp.create.files" {
+            format!("cpcreate|via={pos}")
         } else {
             pos.to_string()
-        }
-    };
-    let via = |op: &str| -> String {
-        if op == "cpcreate" {
-            format!("|via={pos}")
-        } else {
-            String::new()
         }
     };
 
@@ -543,7 +655,7 @@ fn run(case: &Case) -> CaseReport {
     if post_out != pre_out {
         let op = op_for("outside");
         rep.fail(
-            format!("{op}|outside_modified|{kind}{}", via(&op)),
+            format!("{op}|outside_modified|{kind}"),
             detail(json!({"diff": diff(&pre_out, &post_out)})),
         );
     }
@@ -554,7 +666,7 @@ fn run(case: &Case) -> CaseReport {
     if !leaked.is_empty() {
         let op = op_for("output");
         rep.fail(
-            format!("{op}|outside_read_leak_in_output|{kind}{}", via(&op)),
+            format!("{op}|outside_read_leak_in_output|{kind}"),
             detail(json!({"canaries": leaked})),
         );
     }
@@ -567,7 +679,7 @@ fn run(case: &Case) -> CaseReport {
             let w = where_of(rel);
             let op = op_for(w);
             rep.fail(
-                format!("{op}|outside_read_leak_into_{w}|{kind}{}", via(&op)),
+                format!("{op}|outside_read_leak_into_{w}|{kind}"),
                 detail(json!({"file": clip(rel), "canaries": hit})),
             );
         }
@@ -578,7 +690,7 @@ fn run(case: &Case) -> CaseReport {
         rep.class("must_refuse");
         if !refused {
             let op = op_for("");
-            rep.fail(format!("{op}|not_refused|{m}{}", via(&op)), detail(json!({})));
+            rep.fail(format!("{op}|not_refused|{m}"), detail(json!({})));
         } else if post_ws != pre_ws {
             let d = diff(&pre_ws, &post_ws);
             let in_store = post_ws
@@ -590,7 +702,7 @@ fn run(case: &Case) -> CaseReport {
             let w = if in_store { "checkpoint_store" } else { "workspace" };
             let op = op_for(w);
             rep.fail(
-                format!("{op}|refused_but_side_effect_in_{w}|{m}{}", via(&op)),
+                format!("{op}|refused_but_side_effect_in_{w}|{m}"),
                 detail(json!({"diff": d})),
             );
         }
@@ -603,7 +715,7 @@ fn run(case: &Case) -> CaseReport {
 
     // a checkpoint that was created is then rewound after the outside world changed: whatever
     // the checkpoint recorded, the rewind must not touch anything outside the root
-    if pos == "cp.create.files" && bit(4) {
+    if pos == "cp.create.files" && bit(4) && !session {
         if let Some((_, id, _, _)) = seen.created.first() {
             for (rel, _) in SENTINELS {
                 let sp = sb.base.join(rel);
@@ -620,13 +732,13 @@ fn run(case: &Case) -> CaseReport {
             rep.class("create_then_rewind");
             if post2 != pre2 {
                 rep.fail(
-                    format!("cpcreate|outside_modified_by_rewind|{kind}|via={pos}"),
+                    format!("cpcreate|via={pos}|outside_modified_by_rewind|{kind}"),
                     detail(json!({"diff": diff(&pre2, &post2), "rewind_events": events_json(&ev2)})),
                 );
             }
         }
     }
-    rep
+    (rep, hooked)
 }
 
 /// The exclusion constants can be switched off for one run without recompiling
@@ -664,7 +776,14 @@ fn main() {
     cwd::init_neutral();
     check.assume("trees contain no pre-existing symlinks (the property quantifies over path strings and working directories, not over hostile trees)");
     check.assume("reads of parent .gitignore/.ignore files by the `ignore` crate walker behind ls/grep are not driven by a path argument and are not observable without syscall tracing: excluded");
-    check.assume("ripd::checkpoints::WorkspaceCheckpointHook is private to ripd; the harness uses a line-for-line equivalent built from rip_tools::CheckpointHook + rip_workspace::Workspace (create = Workspace::create_checkpoint with the raw paths; rewind = list_checkpoints, require an entry with that id, rewind_to_checkpoint)");
+    check.assume("ripd::checkpoints::WorkspaceCheckpointHook is private to ripd; the harness uses a line-for-line equivalent built from rip_tools::CheckpointHook + rip_workspace::Workspace (create = Workspace::create_checkpoint with the raw paths; rewind = list_checkpoints, require an entry with that id, rewind_to_checkpoint) in group `paths`; group `session` drives the real hook through ripd::SessionEngine input envelopes");
+    check.note(format!(
+        "excluded by construction (counted in counters.excluded_known_*): F2={} F3_ESCAPE={} F3_CWD={} F20={}",
+        excluded(EXCLUDE_KNOWN_F2, "F2"),
+        excluded(EXCLUDE_KNOWN_F3_ESCAPE, "F3_ESCAPE"),
+        excluded(EXCLUDE_KNOWN_F3_CWD, "F3_CWD"),
+        excluded(EXCLUDE_KNOWN_F20, "F20")
+    ));
     check.assume("task cwd (ripd/src/tasks/logs.rs resolve_path) is not reachable through a public API; the textually identical resolver behind the bash/shell tool's cwd argument is covered instead");
     check.assume("absolute paths inside the root passed to checkpoint create are neither required to be refused nor to be accepted (ripd's own tests pass them); for every other position any absolute path must be refused");
     check.assume(format!(
@@ -676,13 +795,21 @@ fn main() {
         }
     ));
     let rule = "one path string from the grammar (names, '.', '..', empty, unicode, 255/256-byte, space/backslash/newline segments; leading '/', trailing '/', '//'; absolute sentinel/root/inside-root paths; k x '..' chains; ~4 KiB) x one argument position (read/write/ls/grep path, patch add/delete/update/move-to path, checkpoint create files[], checkpoint rewind id, bash/shell cwd) x process cwd in {root, outer, elsewhere}; non-trivial = path has a '..' segment, or is absolute, or resolves to the root itself, or cwd != root";
-    let n = check.cases(6_000, 150_000);
+    let n = check.cases(20_000, 500_000);
     check.group(
         "paths",
         rule,
         GroupOpts { cases: n, threads: cwd::threads(), ..Default::default() },
         case_strategy,
         run,
+    );
+    let n = check.cases(3_000, 75_000);
+    check.group(
+        "session",
+        "the same cases sent as one session input envelope ({\"tool\":…} / {\"checkpoint\":…}) through ripd::SessionEngine, i.e. through the real WorkspaceCheckpointHook; cases inside a known-finding region are skipped; same non-triviality rule",
+        GroupOpts { cases: n, threads: cwd::threads(), ..Default::default() },
+        case_strategy,
+        run_session,
     );
     check.finish();
 }
